@@ -59,14 +59,14 @@ OEval(f, r) ==                       \* info_oid / exists_oid / download / listd
       kidOf(e) == {k \in kids : PubOid(f, k) = NormOid(e.oid)}
       \* the class of a failing download is not documented; listdir of anything but a live folder: not found
       dlok == IF isfile THEN r.de = 0 /\ r.dc = m.content ELSE r.de # 0
-      lsok == IF ~isdir THEN r.le = NOTFOUND
+      obsents == {[oid |-> NormOid(r.ls[k].oid), name |-> NormName(r.ls[k].n), type |-> r.ls[k].t] : k \in 1..Len(r.ls)}
+      lsok == IF ~isdir THEN r.le = NOTFOUND \/ (OidIsPath /\ HasBad(r.oid) /\ r.le = NAMEERR)
               ELSE /\ r.le = 0
-                   /\ Len(r.ls) = Cardinality(kids)
-                   /\ {[oid |-> NormOid(r.ls[k].oid), name |-> NormName(r.ls[k].n), type |-> r.ls[k].t] : k \in 1..Len(r.ls)}
-                      = {[oid |-> PubOid(f, k), name |-> NormName(Leaf(f[k].path)), type |-> f[k].type] : k \in kids}
+                   /\ obsents = {[oid |-> PubOid(f, k), name |-> NormName(Leaf(f[k].path)), type |-> f[k].type] : k \in kids}
+      lsonce == (isdir /\ r.le = 0) => Len(r.ls) = Cardinality(obsents)        \* nothing is listed twice
       lshash == UNION {IF kidOf(r.ls[k]) # {} /\ f[Pick(kidOf(r.ls[k]))].type = FILE
                        THEN {<<1, f[Pick(kidOf(r.ls[k]))].content, r.ls[k].h>>} ELSE {} : k \in 1..Len(r.ls)}
-  IN  Flag(InfoOK(r, m), 3) \cup Flag(r.ex = m.found, 4) \cup Flag(dlok, 5) \cup Flag(lsok, 6)
+  IN  Flag(InfoOK(r, m), 3) \cup Flag(r.ex = m.found, 4) \cup Flag(dlok, 5) \cup Flag(lsok, 6) \cup Flag(lsonce, 8)
       \cup HashOf(r, m) \cup (IF isdir /\ r.le = 0 THEN lshash ELSE {})
 
 \* the harness asked about every object of the tree (otherwise an agreement would be vacuous)
@@ -77,8 +77,9 @@ QComplete(f, obs) ==
 Eval(f, obs) == UNION {PEval(f, obs.P[k]) : k \in 1..Len(obs.P)} \cup UNION {OEval(f, obs.O[k]) : k \in 1..Len(obs.O)}
                 \cup Flag(QComplete(f, obs), 7)
 QNames == <<"QueriesAgree/info_path", "QueriesAgree/exists_path", "QueriesAgree/info_oid", "QueriesAgree/exists_oid",
-            "QueriesAgree/download", "QueriesAgree/listdir", "QueriesAgree/complete">>
-CheckQueries(ev) == \A k \in 1..7 : Check(<<0, k, 0>> \notin ev, QNames[k])
+            "QueriesAgree/download", "QueriesAgree/listdir", "QueriesAgree/complete", "QueriesAgree/listdir_twice">>
+CheckQueries(ev) == \A k \in 1..8 : Check(<<0, k, 0>> \notin ev, QNames[k])
+\* kinds 1..7 mean that the provider's tree is not the model's tree; an entry listed twice (8) is only a wrong answer
 QueriesOK(ev)    == \A k \in 1..7 : <<0, k, 0>> \notin ev
 Reported(ev)     == {<<t[2], t[3]>> : t \in {u \in ev : u[1] = 1}}
 
@@ -157,7 +158,7 @@ TCall ==
      IN
        /\ Check(cErr, "ErrorClass/" \o ToString(r.errs) \o "/" \o ToString(Ev.exc))
        /\ Check(cRid, ridClause)
-       /\ CheckQueries(ev)
+       /\ IF cErr /\ cRid THEN CheckQueries(ev) ELSE TRUE    \* else: the call took effect on one side only
        /\ IF same
           THEN /\ HashChecks(rep, hd, hs \cup rep)
                /\ Check(AllReported(r.evs, Ev.evs, Ev.es), "EveryMutationReported")
